@@ -233,7 +233,7 @@ class Explorer(object):
             else:
                 v = self.binop(st.op, cur, inc, st)
             self.assign(st.target, v, env)
-        elif isinstance(st, ast.Import) and all(al.name in ('heapq', 're', 'math', 'os', 'sys', 'itertools', 'functools', 'collections') for al in st.names):
+        elif isinstance(st, ast.Import) and all(al.name in ('heapq', 're', 'math', 'os', 'sys', 'itertools', 'functools', 'collections', 'traceback') for al in st.names):
             for al in st.names:
                 env[al.asname or al.name] = ('global', al.name)       # a local import of a library module the interpreter knows by name
         elif isinstance(st, ast.Expr):
@@ -408,7 +408,7 @@ class Explorer(object):
             c = self.port.module_consts(self.modname).get(e.id, NOT_HANDLED) if hasattr(self.port, 'module_consts') else NOT_HANDLED
             if c is not NOT_HANDLED:
                 return c
-            if e.id in ('len', 'iter', 'str', 'int', 'bool', 'list', 'tuple', 'isinstance', 'range', 'enumerate', 'min', 'max', 'any', 'all', 'type', 'set', 'Set', 'sorted', 'sum', 'Map', 'dict', 'Array', '__regex__', 'reversed', 'Boolean', 'map', 'filter', 'zip', '__keys__', 'typeof'):
+            if e.id in ('len', 'iter', 'str', 'int', 'bool', 'list', 'tuple', 'isinstance', 'range', 'enumerate', 'min', 'max', 'any', 'all', 'type', 'set', 'Set', 'sorted', 'sum', 'Map', 'dict', 'Array', '__regex__', 'reversed', 'Boolean', 'map', 'filter', 'zip', '__keys__', 'typeof', 'String', 'Number'):
                 return ('builtin', e.id)
             if e.id in getattr(self.port, 'modules', {}) or e.id in ('re', 'os', 'sys', 'math', 'ast', 'heapq', 'JSON', 'Math', 'Object', 'Buffer', 'csv_utils', 'rbql_engine', 'rbql'):
                 return ('global', e.id)
@@ -790,6 +790,10 @@ class Explorer(object):
     def builtin(self, name, args, node):
         if name == '__keys__' and len(args) == 1 and isinstance(args[0], dict):
             return [str(k_) for k_ in _js_property_order(args[0])]          # for (k in obj)
+        if name == 'String' and len(args) == 1 and isinstance(args[0], (str, int)) and not isinstance(args[0], bool):
+            return str(args[0])
+        if name == 'Number' and len(args) == 1 and isinstance(args[0], (int, float)) and not isinstance(args[0], bool):
+            return args[0]
         if name == 'typeof' and len(args) == 1 and not isinstance(args[0], Abs):
             v_ = args[0]
             return 'undefined' if v_ is None and False else ('boolean' if isinstance(v_, bool) else 'number' if isinstance(v_, (int, float)) else 'string' if isinstance(v_, str) else 'object')
@@ -936,8 +940,14 @@ class Explorer(object):
             return self._sorted(list(args[1]), kw, node)[:max(args[0], 0)]
         if recv == ('global', 're') and m == 'compile' and args and isinstance(args[0], str) and all(isinstance(a, int) for a in args[1:]):
             return _re.compile(*args)
-        if recv == ('global', 're') and m in ('search', 'match', 'split', 'findall') and len(args) == 2 and isinstance(args[0], str) and isinstance(args[1], str):
-            return getattr(_re, m)(args[0], args[1])
+        if recv == ('global', 're') and m in ('search', 'match', 'split', 'findall') and 2 <= len(args) <= 3 and isinstance(args[0], str) and isinstance(args[1], str):
+            fl_ = (getattr(self, '_kw', None) or {}).get('flags', args[2] if len(args) == 3 else 0)
+            self._kw = {}
+            if isinstance(fl_, tuple) and len(fl_) == 2 and fl_[0] == 'global' and fl_[1] in ('re.IGNORECASE', 're.I'):
+                fl_ = _re.IGNORECASE
+            if not isinstance(fl_, int):
+                raise Undecided('regex flags {!r}'.format(fl_), node)
+            return getattr(_re, m)(args[0], args[1], flags=fl_) if m != 'split' else _re.split(args[0], args[1], flags=fl_)
         if isinstance(recv, list):
             if m in ('append', 'push') and len(args) == 1:
                 recv.append(args[0])
@@ -1054,6 +1064,30 @@ class Explorer(object):
                 return recv.index(args[0]) if args[0] in recv else -1
             if m == 'includes' and len(args) == 1:
                 return any(x is args[0] or (not isinstance(x, Abs) and not isinstance(args[0], Abs) and x == args[0]) for x in recv)
+        if isinstance(recv, str) and getattr(self.port, 'name', 'py') == 'py' and m in ('rstrip', 'lstrip', 'strip', 'lower', 'upper', 'find', 'rfind', 'isdigit', 'isalnum', 'isalpha', 'splitlines', 'partition', 'rpartition', 'zfill', 'title', 'capitalize', 'swapcase', 'casefold') \
+                and all(isinstance(a_, (str, int)) and not isinstance(a_, bool) for a_ in args):
+            try:
+                r_ = getattr(recv, m)(*args)
+            except (TypeError, ValueError):
+                raise Undecided('str.{} on {!r}'.format(m, args), node)
+            return list(r_) if isinstance(r_, tuple) and m in ('partition', 'rpartition') and False else r_
+        if isinstance(recv, str) and getattr(self.port, 'name', 'py') == 'js' and m in ('trim', 'trimEnd', 'trimStart', 'trimLeft', 'trimRight', 'toLowerCase', 'toUpperCase', 'lastIndexOf', 'padStart', 'padEnd') \
+                and all(isinstance(a_, (str, int)) and not isinstance(a_, bool) for a_ in args):
+            ws_ = ' \t\n\r\x0b\x0c\xa0\ufeff'
+            if m == 'trim' and not args:
+                return recv.strip(ws_)
+            if m in ('trimEnd', 'trimRight') and not args:
+                return recv.rstrip(ws_)
+            if m in ('trimStart', 'trimLeft') and not args:
+                return recv.lstrip(ws_)
+            if m == 'toLowerCase' and not args:
+                return recv.lower()
+            if m == 'toUpperCase' and not args:
+                return recv.upper()
+            if m == 'lastIndexOf' and len(args) == 1 and isinstance(args[0], str):
+                return recv.rfind(args[0])
+            if m in ('padStart', 'padEnd') and len(args) == 2 and isinstance(args[0], int) and isinstance(args[1], str) and len(args[1]) == 1:
+                return recv.rjust(args[0], args[1]) if m == 'padStart' else recv.ljust(args[0], args[1])
         if isinstance(recv, str):
             if m == 'join' and len(args) == 1 and isinstance(args[0], (list, tuple)):
                 if all(isinstance(x, str) for x in args[0]):
